@@ -230,6 +230,18 @@ def perturb_other_callee_under_operator(rng, frag, idents):
     return 'absent-identifier'
 
 
+def perturb_ellipsis(rng, frag, program_consts):
+    """a literal of the fragment replaced by `...` - which is a literal like any other, and not in the program"""
+    if any(c[0] == 'ellipsis' for c in program_consts):
+        return None
+    consts = [n for n in ast.walk(frag) if isinstance(n, ast.Constant) and n.value is not Ellipsis and not isinstance(n.value, str)]
+    consts += [n for n in ast.walk(frag) if isinstance(n, ast.Constant) and isinstance(n.value, str) and not cc.is_placeholder_text(n.value)] if hasattr(cc, 'is_placeholder_text') else []
+    if not consts:
+        return None
+    rng.choice(consts).value = Ellipsis
+    return 'literal-replaced-by-ellipsis'
+
+
 def perturb_shift_call_under_operator(rng, frag):
     """g(a, b) as an operand of + or * becomes a(b): the callee is now what was the first argument"""
     spots = []
@@ -301,6 +313,51 @@ def sub_queries(ctx, rng, src, pattern, matches):
                 ctx.count('sub_matches_witness_checked')
                 for pk, detail in problems[:3]:
                     ctx.violation('C10|not-an-embedding|%s|sub-query-reusing-the-placeholder' % pk, case, detail)
+    # ---- the same sub-pattern, naming a _var_ placeholder of the outer pattern, asked under EVERY outer match: a sub-match continues
+    # the match it was asked under, so it binds that placeholder to the identifier THAT match bound it to ------------------------------
+    if len(matches) >= 2:
+        m0 = matches[0]
+        for ph, bound in list(m0.exp_table.items())[:2]:
+            node = getattr(bound, 'astNode', None)
+            if not isinstance(node, (ast.expr, ast.stmt)):
+                continue
+            rev = {}
+            for vph, syms in m0.symbol_table.items():
+                ids = {s_.id for s_ in syms}
+                if len(ids) == 1:
+                    rev[next(iter(ids))] = vph
+            frag = cc.clone(node)
+            used = set()
+            for x in ast.walk(frag):
+                if isinstance(x, ast.Name) and x.id in rev:
+                    used.add(rev[x.id])
+                    x.id = rev[x.id]
+            if not used:
+                continue
+            try:
+                wrapped = frag if isinstance(frag, ast.stmt) else ast.Expr(value=frag)
+                sub_pattern = ast.unparse(ast.fix_missing_locations(wrapped))
+                ast.parse(sub_pattern)
+            except Exception:
+                continue
+            for m in matches[:6]:
+                e = m.exp_table.get(ph)
+                if e is None or getattr(e, 'astNode', None) is not node:
+                    continue        # only outer matches that bind the placeholder to the very same student node
+                case = {'src': src[:3500], 'pattern': pattern, 'perturbation': 'sub-query', 'sub_pattern': sub_pattern, 'placeholder': ph}
+                try:
+                    subs = m[ph].find_matches(sub_pattern)
+                except Exception as ex:
+                    ctx.violation('C10|sub-query-raised|%s|%s' % (type(ex).__name__, site_of(ex)), case, traceback.format_exc()[-400:])
+                    continue
+                ctx.count('sub_queries_under_several_outer_matches')
+                for sm in subs[:10]:
+                    for vph in used:
+                        outer_ids = {s_.id for s_ in m.symbol_table.get(vph, [])}
+                        inner_ids = {s_.id for s_ in sm.symbol_table.get(vph, [])}
+                        if outer_ids and inner_ids and not inner_ids <= outer_ids:
+                            ctx.violation('C10|not-an-embedding|sub-match-binds-a-placeholder-to-another-identifier-than-the-match-it-continues', case,
+                                          '%s: the outer match bound it to %s, the sub-match to %s' % (vph, sorted(outer_ids), sorted(inner_ids)))
 
 
 def commutative_conflicts(rng, tree, k=4):
@@ -346,7 +403,7 @@ def run_program(ctx, rng, src, origin, foreign_patterns):
         if ms and '__' in d.pattern:
             sub_queries(ctx, rng, src, d.pattern, ms)
         # perturbations of the same fragment
-        for fn in rng.sample(['absent-identifier', 'absent-literal', 'literal-type', 'look-alike', 'swap', 'conflict', 'callee-and-argument', 'callee-under-operator'], 4):
+        for fn in rng.sample(['absent-identifier', 'absent-literal', 'literal-type', 'look-alike', 'swap', 'conflict', 'callee-and-argument', 'callee-under-operator', 'ellipsis'], 4):
             frag = cc.clone(d.fragment)
             if fn == 'absent-identifier':
                 kind = perturb_absent_identifier(rng, frag)
@@ -362,6 +419,8 @@ def run_program(ctx, rng, src, origin, foreign_patterns):
                 kind = perturb_callee_and_argument(rng, frag)
             elif fn == 'callee-under-operator':
                 kind = perturb_other_callee_under_operator(rng, frag, idents)
+            elif fn == 'ellipsis':
+                kind = perturb_ellipsis(rng, frag, consts)
             else:
                 kind = perturb_conflicting_placeholder(rng, frag)
             if kind is None:
@@ -370,7 +429,7 @@ def run_program(ctx, rng, src, origin, foreign_patterns):
                 pattern = ast.unparse(ast.fix_missing_locations(frag))
             except Exception:
                 continue
-            must_be_empty = kind in ('absent-identifier', 'absent-literal', 'literal-of-other-type', 'literal-look-alike-of-other-kind')
+            must_be_empty = kind in ('absent-identifier', 'absent-literal', 'literal-of-other-type', 'literal-look-alike-of-other-kind', 'literal-replaced-by-ellipsis')
             ctx.seen('perturbations', kind)
             check(ctx, src, pattern, kind, must_be_empty=must_be_empty)
     # expression-level patterns (the trimmed pattern root is an expression), verbatim and with one placeholder on two names
